@@ -159,6 +159,17 @@ func doDebug(what string) int {
 				ana.SSAInstr
 			})))
 		}
+	case strings.HasPrefix(what, "units:"):
+		fn := p.Func(strings.TrimPrefix(what, "units:"))
+		q := ana.NewUQ(p)
+		q.Trace = func(s string) { fmt.Println(s) }
+		q.AnalyzeRoot(fn)
+		for _, is := range q.SortedIssues() {
+			fmt.Println("ISSUE", is.Kind, p.InstrPos(is.At), is.Detail)
+		}
+	case strings.HasPrefix(what, "expr:"):
+		parts := strings.SplitN(strings.TrimPrefix(what, "expr:"), ":", 2)
+		debugExpr(p, parts[0], parts[1])
 	case strings.HasPrefix(what, "leaves:"):
 		// leaves:<func>:<valuename>
 		parts := strings.SplitN(strings.TrimPrefix(what, "leaves:"), ":", 2)
